@@ -36,7 +36,7 @@ CHECKS.update({
              'with, after EVERY step, the invocation log written by the generated run() methods compared to the reference prediction of which computations must run '
              '(memory, store, lazy pull order); construction/inspection must run nothing; no storage location runs twice. Includes lazily pulled inputs, in-memory tasks, '
              'unrelated configs sharing one computation and legitimately empty results.',
-        note='Trusts tcv/histories.StoreModel; canonical-state merging beyond the stateless depth (state includes a generic image of task-object attributes so hidden caches are not merged away).',
+        note='Known finding K6 (name mode, configs `exp` / `exp_tmp`, directory result: worlds namemode-exp_tmp-dir only). Trusts tcv/histories.StoreModel; canonical-state merging on the PRODUCT of implementation image and reference state beyond the stateless depth (state includes a generic image of task-object attributes so hidden caches are not merged away).',
         design='DESIGN.md §4 C04', engine='worlds+refmodel+histories'),
     'C17': dict(
         technique='exhaustive enumeration of all worker completion orders (gate controller on the real thread pool) x bounded input family; sequential-map oracle',
@@ -55,7 +55,7 @@ CHECKS.update({
              'delete_data must remove exactly those results, recompute must run each forced task exactly once, forced tasks rerun once and replace the stored result '
              '(generation witness carried in the value), unforced tasks are served from storage. Part B explores histories over {new, value, chain force, task force, inspect, '
              'restart}. Tasks use json/dir/numpy/generator data so directory deletion paths are exercised.',
-        note='Trusts tcv/histories.StoreModel and refmodel closures; run order within recompute compared as multiset (unspecified).',
+        note='Known finding K6 (as C04). Trusts tcv/histories.StoreModel and refmodel closures; run order within recompute compared as multiset (unspecified); whether is_forced still shows the mark after the forced computation is done is not compared. Includes reset_data and forcing of shared task objects under other namespaces (c13.namespace_scenarios).',
         design='DESIGN.md §4 C07', engine='worlds+refmodel+histories'),
     'C12': dict(
         technique='exhaustive differential enumeration of every task of a bounded world family against a frozen 1.4.0 reference pinned by golden vectors',
@@ -86,7 +86,7 @@ CHECKS.update({
              'compared with an independent left-to-right tokenizer; also idempotence (same object on re-application), identity of non-strings, str-like behaviour, and repr of '
              'the string and of copy/deepcopy of it and of its container. Part B checks parameter values vs persistence representations, config `uses`, context values, '
              'context `uses` (string / list / namespaced / nested) and object-definition arguments through real Config/Context/Chain objects.',
-        note='Trusts the 25-line tokenizer refmodel.substitute; tuples/sets and `{{A}}` escapes are outside the stated domain.',
+        note='Trusts the 25-line tokenizer refmodel.substitute, which follows the statement literally (a `{NAME}` is found wherever it stands, also behind another brace); tuples / sets and names containing braces are outside the stated domain.',
         design='DESIGN.md §4 C11', engine='enumvals+worlds+refmodel'),
 })
 
